@@ -217,6 +217,9 @@ fn rel_components(cwd: &str, root: &str) -> Option<Vec<String>> {
 }
 
 fn escapes(mut depth: usize, path: &str) -> bool {
+    if path.is_empty() || path.starts_with('/') {
+        return true; // an absolute path is never below the scratch root
+    }
     for c in path.split('/') {
         match c {
             "" | "." => {}
@@ -622,7 +625,8 @@ fn run_seq_case(case: &str) {
 // ------------------------------------------------------------------------------------------
 // system-call generator
 
-const CLASSES: [&str; 8] = ["clean", "mkparent", "dirwrite", "emfile", "dotdot", "chdirup", "dup2same", "opendir"];
+const CLASSES: [&str; 10] =
+    ["clean", "mkparent", "dirwrite", "emfile", "dotdot", "chdirup", "dup2same", "opendir", "filedot", "lsfull"];
 
 struct Gen {
     rng: Rng,
@@ -635,8 +639,10 @@ struct Gen {
 }
 
 /// (absolute-in-root path, kind): 'f' existing file, 'd' directory, 'm' missing with existing parent,
-/// 'n' below a regular file, 'p' missing parent directory
-const TARGETS: [(&str, char); 16] = [
+/// 'n' below a regular file, 'p' missing parent directory, 'q' existing file or directory (or an error)
+/// named through `.`, `..`, a doubled slash or a regular file used as a directory, 'z' `<regular file>/.`
+/// (catalogued divergence D12: only class `filedot` uses it)
+const TARGETS: [(&str, char); 27] = [
     ("f1", 'f'),
     ("f2", 'f'),
     ("d1/g", 'f'),
@@ -653,6 +659,17 @@ const TARGETS: [(&str, char); 16] = [
     ("nd/x", 'p'),
     ("nd/nd2/y", 'p'),
     ("d1/nd/z", 'p'),
+    ("f1/.", 'z'),
+    ("f1/..", 'q'),
+    ("f1/../f2", 'q'),
+    ("d1/g/.", 'z'),
+    ("d1/g/../g", 'q'),
+    ("d1/.", 'q'),
+    ("d1/dd/..", 'q'),
+    ("d1/dd/../g", 'q'),
+    ("./f1", 'q'),
+    ("d1//g", 'q'),
+    ("d2/../f2", 'q'),
 ];
 
 impl Gen {
@@ -669,7 +686,28 @@ impl Gen {
         if parts.is_empty() {
             parts.push(".");
         }
+        if parts[0].is_empty() {
+            parts.insert(0, "."); // `d1//g` seen from d1 is `.//g`, never the absolute `/g`
+        }
         (parts.join("/"), ups > 0)
+    }
+
+    /// a target; `<file>/.` only in class `filedot`
+    fn target(&mut self) -> (&'static str, char) {
+        loop {
+            let t = *self.rng.pick(&TARGETS);
+            if t.1 != 'z' || self.class == "filedot" {
+                return t;
+            }
+        }
+    }
+
+    /// `opendir` on a path that is not a directory while the table may be full answers ENOTDIR/ENOENT on
+    /// the simulator and EMFILE on Linux (catalogued divergence D13: only class `lsfull` goes there)
+    fn push_ls(&mut self, path: &str) {
+        if self.upper < self.limit || self.class == "lsfull" {
+            self.ops.push(format!("ls {path}"));
+        }
     }
 
     fn some_fd(&mut self) -> i64 {
@@ -683,20 +721,23 @@ impl Gen {
     }
 
     fn clean_open(&mut self) {
-        // every open in a clean case stays away from the catalogued divergences
+        // stays away from the two catalogued divergences only: O_CREAT below a missing directory (D1) and
+        // O_CREAT of a missing file through `..` (D4)
         for _ in 0..20 {
-            let (target, kind) = *self.rng.pick(&TARGETS);
+            let (target, kind) = self.target();
             let (path, dotdot) = self.rel(target);
             let acc = *self.rng.pick(&["r", "w", "rw", "w", "r"]);
             let writable = acc != "r";
             let mut fl = String::new();
             match kind {
                 'd' => {
-                    if writable {
-                        continue;
-                    }
-                    if self.rng.chance(1, 2) {
-                        fl.push('d');
+                    // write access, O_CREAT, O_TRUNC on a directory: EISDIR everywhere
+                    match self.rng.below(6) {
+                        0 | 1 => fl.push('d'),
+                        2 => fl.push('c'),
+                        3 if writable => fl.push('t'),
+                        4 => fl.push_str("cx"),
+                        _ => {}
                     }
                 }
                 'p' => {} // no create below a missing directory
@@ -721,9 +762,6 @@ impl Gen {
             if self.rng.chance(1, 5) {
                 fl.push('e');
             }
-            if self.upper >= self.limit {
-                return; // the table may be full: an open here belongs to class `emfile`
-            }
             let mode = *self.rng.pick(&["666", "644", "600", "777", "0", "640"]);
             let fl = if fl.is_empty() { "-".to_string() } else { fl };
             self.ops.push(format!("open {path} {acc} {fl} {mode}"));
@@ -733,11 +771,13 @@ impl Gen {
     }
 
     fn any_open(&mut self) {
-        let (target, _) = *self.rng.pick(&TARGETS[..11]);
-        let (path, _) = self.rel(target);
+        let (target, kind) = *self.rng.pick(&TARGETS[..11]);
+        let (path, dotdot) = self.rel(target);
         let acc = *self.rng.pick(&["r", "w", "rw"]);
         let fl = *self.rng.pick(&["-", "c", "ct", "ca", "cx", "t"]);
         let fl = if acc == "r" && fl.contains('t') { "c" } else { fl };
+        // creating a missing file through `..` is the catalogued divergence D4 (class `dotdot`)
+        let fl = if dotdot && kind == 'm' && fl.contains('c') { "-" } else { fl };
         self.ops.push(format!("open {path} {acc} {fl} 666"));
         self.upper += 1;
     }
@@ -774,10 +814,7 @@ impl Gen {
                 self.upper += 1;
             }
             66..=71 => {
-                let mut to = self.some_fd();
-                if to == fd {
-                    to += 1; // dup2(fd, fd) belongs to class `dup2same`
-                }
+                let to = if self.rng.chance(1, 8) { fd } else { self.some_fd() };
                 self.ops.push(format!("dup2 {fd} {to}"));
                 self.upper += 1;
             }
@@ -788,11 +825,10 @@ impl Gen {
                 self.ops.push(format!("setfd {fd} {c}"))
             }
             86..=88 => {
-                // downward only (class `chdirup` adds `..`)
                 let opts: Vec<&'static str> = match self.cwd.as_slice() {
-                    [] => vec!["d1", "d2", "d1/dd", "f1", "nodir"],
-                    ["d1"] => vec!["dd", "g", "nodir"],
-                    _ => vec!["nodir", "g"],
+                    [] => vec!["d1", "d2", "d1/dd", "f1", "nodir", ".", "..", "d1/..", "f1/.", "f1/..", "d1/dd/.."],
+                    ["d1"] => vec!["dd", "g", "nodir", "..", ".", "dd/..", "g/..", "../d2"],
+                    _ => vec!["nodir", "g", "..", ".", "../.."],
                 };
                 let p = *self.rng.pick(&opts);
                 match p {
@@ -800,6 +836,18 @@ impl Gen {
                     "d1/dd" => {
                         self.cwd.push("d1");
                         self.cwd.push("dd");
+                    }
+                    "d1/dd/.." => self.cwd.push("d1"),
+                    ".." => {
+                        self.cwd.pop();
+                    }
+                    "../.." => {
+                        self.cwd.pop();
+                        self.cwd.pop();
+                    }
+                    "../d2" => {
+                        self.cwd.pop();
+                        self.cwd.push("d2");
                     }
                     _ => {}
                 }
@@ -810,17 +858,24 @@ impl Gen {
                 self.ops.push(format!("umask {m}"))
             }
             92..=94 => self.ops.push(format!("fstat {fd}")),
-            95..=97 => {
-                let (target, _) = *self.rng.pick(&TARGETS);
+            95..=96 => {
+                let (target, _) = self.target();
                 let (path, _) = self.rel(target);
                 self.ops.push(format!("stat {path}"))
+            }
+            97 => {
+                let (target, _) = self.target();
+                let (path, _) = self.rel(target);
+                self.push_ls(&path)
             }
             98 => self.ops.push("cwd".to_string()),
             _ => self.ops.push(format!("acc {fd}")),
         }
     }
 
-    /// one operation of the catalogued divergence this class is about
+    /// one operation of the kind this class emphasises (`mkparent`, `dotdot`: the catalogued divergences D1,
+    /// D4; the other classes were divergences D2, D3, D5, D6, D7 until they were fixed in /repo and are
+    /// ordinary cases now)
     fn special(&mut self) {
         match self.class {
             "mkparent" => {
@@ -866,7 +921,27 @@ impl Gen {
             }
             "opendir" => {
                 let t = *self.rng.pick(&["d1", "d2", ".", "d1/dd", "f1", "nodir"]);
-                self.ops.push(format!("ls {t}"));
+                self.push_ls(t);
+            }
+            "filedot" => {
+                let t = *self.rng.pick(&["f1/.", "d1/g/.", "f2/."]);
+                let (path, _) = self.rel(t);
+                if self.rng.chance(1, 2) {
+                    self.ops.push(format!("stat {path}"));
+                } else {
+                    let acc = *self.rng.pick(&["r", "w", "rw"]);
+                    self.ops.push(format!("open {path} {acc} - 666"));
+                    self.upper += 1;
+                }
+            }
+            "lsfull" => {
+                if self.upper < self.limit {
+                    self.any_open();
+                } else {
+                    let t = *self.rng.pick(&["f1", "nodir", "d1/g", "f1/x", "nd/x"]);
+                    let (path, _) = self.rel(t);
+                    self.push_ls(&path);
+                }
             }
             _ => {}
         }
@@ -875,7 +950,7 @@ impl Gen {
 
 fn gen_seq(rng: &mut Rng, class: &'static str, thorough: bool) -> String {
     let limit = match class {
-        "emfile" => *rng.pick(&[4u64, 5, 6]),
+        "emfile" | "lsfull" => *rng.pick(&[4u64, 5, 6]),
         _ => *rng.pick(&[64u64, 64, 8, 12]),
     };
     let mut g = Gen { rng: rng.fork(), class, limit, cwd: vec![], upper: 3, ops: vec![] };
@@ -1119,7 +1194,7 @@ fn run_shell_case(tag: &str, script: &str) {
 /// (tag, script template); `%` is replaced by a per-instance suffix.  Tag `clean` = no catalogued
 /// divergence is involved.  Only built-ins of the real binary are used (`alias` without aliases is
 /// the do-nothing regular built-in, `typeset -p` the printer).
-const FRAGMENTS: [(&str, &str); 62] = [
+const FRAGMENTS: [(&str, &str); 68] = [
     ("clean", "x%=one; typeset -p x% >o%; x%=two; typeset -p x% >o%; read -r l <o%; typeset -p l"),
     ("clean", "x%=ap; typeset -p x% >>a%; x%=bp; typeset -p x% >>a%; umask >>a%"),
     ("clean", "set -C; alias >f1; s=$?; typeset -p s; typeset -p s >|f1; alias >n%; set +C; read -r l <f1; typeset -p l"),
@@ -1154,16 +1229,16 @@ const FRAGMENTS: [(&str, &str); 62] = [
     ("clean", "f%() { typeset -p PWD; alias >fn%; }; cd d2; f% >fo%; cd ..; f% >fo2%"),
     ("mkparent", "alias >nd%/x; s=$?; typeset -p s"),
     ("mkparent", "alias >>nd%/sub/x; s=$?; typeset -p s; set -C; alias >ne%/y; s=$?; typeset -p s; set +C"),
-    ("dirwrite", "alias >d2; s=$?; typeset -p s; alias >>d1; s=$?; typeset -p s"),
+    ("clean", "alias >d2; s=$?; typeset -p s; alias >>d1; s=$?; typeset -p s"),
     ("dotdot", "alias >d1/../up%; s=$?; typeset -p s; cd d1; alias >../up2%; s=$?; typeset -p s; cd .."),
-    ("chdirup", "cd d1/dd; cd -P ..; typeset -p PWD; cd .."),
+    ("clean", "cd d1/dd; cd -P ..; typeset -p PWD; cd .."),
     ("clean", "cd d1; (alias >sub%); y=$(for i in *; do typeset -p i; done); typeset -p y; cd .."),
     ("clean", "cd d2; x%=q; typeset -p x% | { read -r l; typeset -p l >pp%; }; cd .."),
     ("clean", "umask 027; (alias >su%); alias | alias >sv%; umask 644"),
     ("clean", "(ulimit -n 7; (alias 8<f1); s=$?; typeset -p s; (ulimit -n 9; alias 8<f1); s=$?; typeset -p s)"),
-    ("emfile", "(ulimit -n 3; exec 5>nf%); s=$?; typeset -p s"),
-    ("opendir", "for i in *; do :; done; for i in d1/*; do :; done; alias <&3; s=$?; typeset -p s; alias <&4; s=$?; typeset -p s"),
-    ("opendir", "(ulimit -n 5; for i in d1/*; do typeset -p i; done; for i in d1/*; do typeset -p i; done; for i in d1/*; do typeset -p i; done)"),
+    ("clean", "(ulimit -n 3; exec 5>nf%); s=$?; typeset -p s"),
+    ("clean", "for i in *; do :; done; for i in d1/*; do :; done; alias <&3; s=$?; typeset -p s; alias <&4; s=$?; typeset -p s"),
+    ("clean", "(ulimit -n 5; for i in d1/*; do typeset -p i; done; for i in d1/*; do typeset -p i; done; for i in d1/*; do typeset -p i; done)"),
     ("clean", "x%='p q'; typeset -p x% >w%; typeset -p x% >>w%; while read -r a b; do typeset -p a b; done <w%"),
     ("clean", "( (x%=in; typeset -p x% >n%); read -r l <n%; typeset -p l >>n% ); while read -r l; do typeset -p l; done <n%"),
     ("clean", "x%=keep; exec @F>&1 >ex%; typeset -p x%; exec >&@F @F>&-; read -r l <ex%; typeset -p l"),
@@ -1182,6 +1257,12 @@ const FRAGMENTS: [(&str, &str); 62] = [
     ("clean", "y=$( (x%=@W; typeset -p x% >cs2%; typeset -p x%) | { read -r l; typeset -p l; } ); typeset -p y"),
     ("clean", "umask @U; x%=$(alias >cu%; umask); typeset -p x%; umask 644"),
     ("clean", "cd d1/dd; (alias >deep2%; typeset -p PWD >pw%); cd ../.."),
+    ("clean", "alias <f1/../f2; s=$?; typeset -p s; alias >>f1/..; s=$?; typeset -p s; cd f1/..; s=$?; typeset -p s; cd f1/.; s=$?; typeset -p s"),
+    ("filedot", "alias <f1/.; s=$?; typeset -p s; read -r l <d1/g/.; s=$?; typeset -p s l"),
+    ("filedot", "for i in f*/. d1/g*/.; do typeset -p i; done"),
+    ("clean", "for i in d[12]/. d[12]/.. f*/.. d1/*/.. d1/g/.; do typeset -p i; done"),
+    ("clean", "read -r a <d1/./g; read -r b <d1/dd/../g; read -r c <d2/../f1; typeset -p a b c; typeset -p a >>d1/dd/../g; read -r l <d1/g; typeset -p l"),
+    ("clean", "(ulimit -n 4; alias <f1 >t%; s=$?; typeset -p s; alias <f1 >>f2 2>nf%; s=$?; typeset -p s); read -r l <f1; typeset -p l"),
 ];
 
 fn gen_script(rng: &mut Rng, allow_known: bool) -> (String, String) {
@@ -1208,17 +1289,6 @@ fn gen_script(rng: &mut Rng, allow_known: bool) -> (String, String) {
         let um = *rng.pick(&["022", "027", "077", "002", "000", "137", "026"]);
         let word = *rng.pick(&["alpha", "b-c", "x y", "q=r", "tab\there"]);
         parts.push(text.replace('%', &suffix).replace("@F", &fd).replace("@U", um).replace("@W", &format!("'{word}'")));
-    }
-    // Pathname expansion leaks descriptors on the simulator (D7); a descriptor limit set afterwards makes
-    // the leak observable, so such a composition belongs to class `opendir`.
-    if tags.is_empty() {
-        let first_glob = parts.iter().position(|p: &String| ["in *", "in f*", "in d1/*"].iter().any(|g| p.contains(g)));
-        let last_limit = parts.iter().rposition(|p: &String| p.contains("ulimit"));
-        if let (Some(g), Some(l)) = (first_glob, last_limit) {
-            if g < l {
-                tags.push("opendir");
-            }
-        }
     }
     let tag = if tags.is_empty() { "clean".to_string() } else { tags.join("+") };
     (tag, parts.join("\n"))
@@ -1267,7 +1337,7 @@ fn main() {
     let mut rng = Rng::new(opts.seed ^ 0xC19C_19C1);
     let n_seq = if thorough { 100_000 } else { 2_400 };
     for i in 0..n_seq {
-        let class = if i % 5 < 3 { "clean" } else { CLASSES[1 + (i / 5) % 7] };
+        let class = if i % 5 < 3 { "clean" } else { CLASSES[1 + (i / 5) % 9] };
         let case = gen_seq(&mut rng, class, thorough);
         if mine(&mut index) {
             run_seq_case(&case);
